@@ -19,7 +19,7 @@ def expectations(gr, def_rows):
     out = []
     for d in gr["g"]["defs"]:
         row = def_rows.get((d["owner"], d["name"], d["static"]))
-        if row is None:
+        if row is None or d["how"] == "attr":      # attribute accessors have their own hint format: not judged here
             continue
         out.append({"owner": K.PLAIN.get(d["owner"], d["owner"]), "name": d["name"], "static": d["static"], "vis": d["vis"], "row": row,
                     "how": d["how"]})
